@@ -57,12 +57,26 @@ RULE = ('histories of attach/detach/receive/settle/reply/disconnect events over 
         'prefixes, reconnection; (c) random world histories steered by the schedule.  The schedule (Lin) turns a world history into '
         'table steps VRegister / VUnregister (Model/DispatchV1.v), Interests and loop turns; the specification machine '
         '(Spec/DispatchV1Spec.v: register without a handler changes nothing, unregister frees exactly that prefix and never fails, '
-        'answers never reach the table) says who receives each Interest (classes *-registration-api).  non-trivial = at least one '
-        'attach and one Interest; distinct by history hash')
+        'answers never reach the table) says who receives each Interest (classes *-registration-api).  '
+        'Refused attach x options (legacy front-end: need_raw_packet x need_sig_ptrs x validator {none, accepting, rejecting} = 12 '
+        'option sets; appv2: validator {none, accepting, rejecting} through attach_handler and route): a handler with a STRICT '
+        'signature (exactly the optional arguments it asked for) occupies /r/p -- alone, or between handlers at /r and /r/p/q with '
+        'options of their own --, then a second attach on /r/p (given as components, URI, encoded bytes, bytearray, component '
+        'strings) is attempted with EVERY option set (all 144 / 9 pairs), then nothing / another refused attach with a third '
+        'option set / detach / detach and a fresh attach with the refused options.  Before and after every step plain AND signed '
+        '(DigestSha256) Interests at and under every prefix are pushed through _receive.  Demanded (the property\'s statement; '
+        'C04_duplicate_refused_keeps_options is the model-side counterpart): the second attach raises ValueError; every Interest is '
+        'delivered exactly once to the handler of its longest attached prefix iff the validator THAT handler was attached with '
+        '(the application default when it brought none on v1; none = signed Interests dropped on appv2) accepts, no other validator is '
+        'consulted, the handler is called with exactly the optional arguments it asked for (raw_packet = the received wire, '
+        'sig_ptrs of that packet), no delivery task ends with an error (classes delivery / validator-consulted / '
+        'handler-arguments / loop-exception, suffix -after-refused-attach once a refused attach has happened).  '
+        'non-trivial = at least one attach and one Interest; distinct by history hash')
 ASSUMPTIONS = [
     'events separated by `settle` are separated by loop quiescence; events inside one turn run without a loop turn '
     'in between (asyncio task scheduling is FIFO: modelled as the pending list)',
-    'plain Interests only (no ApplicationParameters / signature): the validation gate is C05',
+    'plain Interests only (no ApplicationParameters / signature): the validation gate is C05 -- except in the refused-attach '
+    'family, where signed Interests show WHICH validator (the occupying handler\'s or the refused caller\'s) judges',
     'pygtrie 2.6.1 is modelled by Model/Trie.v (exercised, not verified); name normalisation is C09',
     'handlers are distinct callables; None as a handler is outside the specification (correspondence only)',
     'a face transmits nothing while `running` is false (the recording face drops such bytes, as a closed socket does); '
@@ -1554,6 +1568,246 @@ def gen_world(rng, cs):
     return h
 
 
+# ---- refused attach x options ------------------------------------------------------------------------------------
+# "Attaching a second handler to an occupied prefix is refused" -- and the refusal is a no-op: the occupying handler keeps
+# receiving exactly the Interests it received before, called exactly the way it asked to be called (v1: with / without
+# raw_packet / sig_ptrs), judged by exactly the validator it was attached with.  The other families attach tolerant handlers
+# (**kw) with always-accepting validators and feed plain Interests, so what a refused call leaves behind in the node was
+# visible to the correspondence (table items) only.  Here handlers have STRICT signatures, validators have identities and
+# verdicts, Interests come plain and signed, and both attaches run through every combination of options.
+RF_VD = (None, 'accept', 'reject')
+RF_THEN = ('none', 'again', 'detach', 'reattach')
+RF_AROUND = ('alone', 'nested')
+RF_APIS = {FE_V1: ('filter',), FE_V2: ('attach', 'route')}
+
+
+def rf_options(fe):
+    """(need_raw_packet, need_sig_ptrs, validator) an attach can ask for on this front-end"""
+    if fe == FE_V1:
+        return [(r, g, v) for r in (False, True) for g in (False, True) for v in RF_VD]
+    return [(False, False, v) for v in RF_VD]
+
+
+def refused_scenario(ctx, fe, loop, sp):
+    """sp: {'first': [raw, sig, vd], 'second': [raw, sig, vd], 'around', 'then', 'api', 'repr'}"""
+    from ndn.encoding import make_interest, InterestParam, Name
+    from ndn.security import DigestSha256Signer
+    site = FE_NAME[fe]
+    face = Face()
+    if fe == FE_V2:
+        from ndn.appv2 import NDNApp
+        from ndn.types import ValidResult
+        app = NDNApp(face=face, registerer=Reg())
+    else:
+        from ndn.app import NDNApp
+        app = NDNApp(face=face, keychain=object())
+    R, P, Q = [comp('r')], [comp('r'), comp('p')], [comp('r'), comp('p'), comp('q')]
+    first, second = tuple(sp['first']), tuple(sp['second'])
+    case = {'fe': site, 'refused': dict(sp)}
+    log, consults = [], []
+    phase = ['before']
+    refused = [False]
+
+    def cls(c):
+        return c + ('-after-refused-attach' if refused[0] else '')
+
+    def mk_handler(hid, raw, sig):
+        def rec(name, **kw):
+            log.append((hid, [bytes(c) for c in name],
+                        {k: (bytes(v) if k == 'raw_packet' else v.signature_info is not None) for k, v in kw.items()}))
+        if fe == FE_V2:
+            def h(name, app_param, reply, context):
+                rec(name)
+        elif raw and sig:
+            def h(name, param, app_param, raw_packet, sig_ptrs):
+                rec(name, raw_packet=raw_packet, sig_ptrs=sig_ptrs)
+        elif raw:
+            def h(name, param, app_param, raw_packet):
+                rec(name, raw_packet=raw_packet)
+        elif sig:
+            def h(name, param, app_param, sig_ptrs):
+                rec(name, sig_ptrs=sig_ptrs)
+        else:
+            def h(name, param, app_param):
+                rec(name)
+        return h
+
+    def mk_validator(vid, verdict):
+        if verdict is None:
+            return None
+        if fe == FE_V2:
+            async def v(name, sig, context):
+                consults.append(vid)
+                return ValidResult.PASS if verdict == 'accept' else ValidResult.FAIL
+        else:
+            async def v(name, sig):
+                consults.append(vid)
+                return verdict == 'accept'
+        return v
+    if fe == FE_V1:
+        app.int_validator = mk_validator('default', 'accept')      # whom v1 asks when a filter brought no validator
+    table = {}          # prefix (tuple) -> (hid, raw, sig, vid or None, verdict or None): what the application asked for
+
+    def attach(prefix, hid, opts, who, arg=None, api=None):
+        raw, sig, vd = opts
+        h, v = mk_handler(hid, raw, sig), mk_validator(who, vd)
+        arg = list(prefix) if arg is None else arg
+        try:
+            if fe == FE_V2:
+                if api == 'route':
+                    app.route(arg, v)(h)
+                else:
+                    app.attach_handler(arg, h, v)
+            else:
+                app.set_interest_filter(arg, h, v, raw, sig)
+            return None
+        except Exception as e:   # noqa
+            return e
+
+    def occupy(prefix, hid, opts, who):
+        e = attach(prefix, hid, opts, who)
+        if e is not None:
+            ctx.violation(site, cls('attach-outcome'), f'attach on the free prefix {b"".join(prefix).hex()} raised {e!r}', case)
+        else:
+            table[tuple(prefix)] = (hid, opts[0], opts[1], who if opts[2] else None, opts[2])
+
+    def probe(label):
+        """plain and signed Interests at / under every prefix of the table: who receives, called how, judged by whom"""
+        phase[0] = label
+        x = comp('x')
+        for tgt in ([P + [x], P, R + [x], Q + [x]] if sp['around'] == 'nested' else [P + [x], P, R + [x]]):
+            for signed in (False, True):
+                wire = bytes(make_interest(list(tgt), InterestParam(nonce=0x0a0b0c0d, lifetime=4000), b'' if signed else None,
+                                           signer=DigestSha256Signer(for_interest=True) if signed else None))
+                del log[:], consults[:]
+                loop.errors.clear()
+                try:
+                    loop.run_until_complete(app._receive(5, wire))
+                    exc = None
+                except Exception as e:   # noqa
+                    exc = e
+                loop.settle()
+                what = f'[{label}] {"signed" if signed else "plain"} Interest {b"".join(tgt).hex()}'
+                if exc is not None:
+                    ctx.violation(site, cls('delivery'), f'{what}: reception raised {exc!r}', case)
+                if loop.errors or len(log) != 1:        # (never-retrieved task exceptions only surface at a collection)
+                    errs = loop.collect_errors()
+                    loop.errors.clear()
+                    if errs:
+                        e = errs[0].get('exception')
+                        ctx.violation(site, cls('loop-exception'), f'{what}: the delivery task ended with {e!r}'[:300], case)
+                owner = None
+                for k in range(len(tgt), -1, -1):
+                    if tuple(tgt[:k]) in table:
+                        owner = table[tuple(tgt[:k])]
+                        break
+                # -- who judges
+                if owner is None or not signed:
+                    want_consults = []
+                elif owner[3] is not None:
+                    want_consults = [owner[3]]
+                else:
+                    want_consults = ['default'] if fe == FE_V1 else []
+                if consults != want_consults:
+                    ctx.violation(site, cls('validator-consulted'),
+                                  f'{what}: validators consulted {consults!r}, the handler that occupies the longest attached '
+                                  f'prefix was attached with {want_consults!r}', case)
+                # -- who receives, called how
+                if owner is None:
+                    deliver = False
+                elif not signed:
+                    deliver = True
+                elif owner[4] is None:
+                    deliver = fe == FE_V1
+                else:
+                    deliver = owner[4] == 'accept'
+                got = [(hid, kw) for hid, _, kw in log]
+                if not deliver:
+                    if got:
+                        ctx.violation(site, cls('delivery'), f'{what}: delivered to {[g[0] for g in got]!r}, expected nobody', case)
+                    continue
+                if [g[0] for g in got] != [owner[0]]:
+                    ctx.violation(site, cls('delivery'), f'{what}: delivered to {[g[0] for g in got]!r}, expected exactly handler '
+                                                         f'{owner[0]} (longest attached prefix), once', case)
+                    continue
+                if log[0][1][:len(tgt)] != list(tgt):
+                    ctx.violation(site, cls('delivery'), f'{what}: the handler got the name {b"".join(log[0][1]).hex()}', case)
+                want_kw = {}
+                if owner[1]:
+                    want_kw['raw_packet'] = wire
+                if owner[2]:
+                    want_kw['sig_ptrs'] = signed
+                if fe == FE_V1 and got[0][1] != want_kw:
+                    ctx.violation(site, cls('handler-arguments'),
+                                  f'{what}: handler {owner[0]} was called with optional arguments {sorted(got[0][1])!r} '
+                                  f'(expected {sorted(want_kw)!r} with the received packet / its signature pointers)', case)
+
+    oa, ob = ((True, False, 'accept'), (False, True, None)) if sp['repr'] % 2 == 0 else ((False, False, 'reject'), (True, True, 'accept'))
+    if fe == FE_V2:
+        oa, ob = (False, False, oa[2]), (False, False, ob[2])
+    if sp['around'] == 'nested':
+        occupy(R, 0, oa, 'shorter')
+    occupy(P, 1, first, 'first')
+    if sp['around'] == 'nested':
+        occupy(Q, 2, ob, 'longer')
+    probe('before')
+    # -- the refused attach: the same prefix, in another representation, other options
+    reprs = [list(P), Name.to_str(P), bytes(Name.to_bytes(P)), bytearray(Name.to_bytes(P)), [Name.to_str([c])[1:] for c in P]]
+
+    def refuse(opts, who, k):
+        e = attach(P, 9, opts, who, arg=reprs[k % len(reprs)], api=sp['api'])
+        refused[0] = True
+        if not isinstance(e, ValueError):
+            ctx.violation(site, 'attach-outcome', f'a second attach on the occupied prefix /r/p with options {opts!r} '
+                                                  f'{"succeeded" if e is None else "raised " + repr(e)} (ValueError expected)', case)
+            if e is None:
+                table[tuple(P)] = (9, opts[0], opts[1], who if opts[2] else None, opts[2])
+    refuse(second, 'second', sp['repr'])
+    probe('after the refused attach')
+    then = sp['then']
+    if then == 'again':
+        opts = rf_options(fe)
+        refuse(opts[(opts.index(second) + 5) % len(opts)], 'third', sp['repr'] + 1)
+        probe('after another refused attach')
+    elif then in ('detach', 'reattach'):
+        try:
+            (app.detach_handler if fe == FE_V2 else app.unset_interest_filter)(list(P))
+            del table[tuple(P)]
+        except Exception as e:   # noqa
+            ctx.violation(site, cls('detach-outcome'), f'detach of the occupied prefix /r/p raised {e!r}', case)
+        if then == 'reattach':
+            occupy(P, 9, second, 'second')
+        probe('after detach' + (' and a fresh attach with the refused options' if then == 'reattach' else ''))
+    errs = loop.collect_errors()
+    loop.errors.clear()
+    if errs:
+        e = errs[0].get('exception')
+        ctx.violation(site, cls('loop-exception'), f'a delivery task ended with {e!r}'[:300], case)
+    ctx.case(('rf', fe, repr(sorted(sp.items()))), True, case, f'refused-attach.{site}.{then}')
+
+
+def refused_family(ctx, loop):
+    """every pair of option sets (first attach, refused attach) on v1 and v2; the table around the prefix, the representation
+    of the refused name, the API and what happens next rotate in the quick tier and are enumerated in the thorough one"""
+    import gc
+    i = 0
+    gc.collect()
+    gc.freeze()         # keeps the long-lived heap out of the per-scenario collections
+    for fe in (FE_V1, FE_V2):
+        opts = rf_options(fe)
+        for first in opts:
+            for second in opts:
+                for api in RF_APIS[fe]:
+                    combos = [(a, t) for a in RF_AROUND for t in RF_THEN]
+                    if not ctx.thorough:
+                        combos = [combos[(i + j * 3) % len(combos)] for j in range(2 if fe == FE_V1 else 4)]
+                    for around, then in combos:
+                        i += 1
+                        refused_scenario(ctx, fe, loop, {'first': list(first), 'second': list(second), 'around': around,
+                                                         'then': then, 'api': api, 'repr': i % 5})
+    gc.unfreeze()
+
+
 def run(ctx):
     import ndn.utils
     rng = ctx.rng
@@ -1764,6 +2018,9 @@ def run(ctx):
                 run_history(ctx, fe, h, f'history-nonspec-{FE_NAME[fe]}', state)
         state['collect'] = True
 
+        # ---- 3b. refused attach x options: a refused second attach leaves the occupying handler untouched ------
+        refused_family(ctx, loop)
+
         # ---- 4. same-turn races: Interest queued, then the table changes before the loop runs ------
         a, b = comp('a'), comp('b')
         for fe in (FE_V2, FE_V1):
@@ -1790,6 +2047,15 @@ def replay(ctx, data):
     from harness.lib.core import unjson
     from ndn.encoding import make_data, MetaInfo
     case = unjson(data.get('case'))
+    if isinstance(case, dict) and 'refused' in case:
+        logging.getLogger('ndn').setLevel(logging.CRITICAL)
+        loop = vtloop.new_loop()
+        try:
+            refused_scenario(ctx, {v: k for k, v in FE_NAME.items()}[case['fe']], loop, case['refused'])
+        finally:
+            loop.close()
+            asyncio.set_event_loop(None)
+        return
     if not isinstance(case, dict) or 'history' not in case:
         ctx.notes.append('replay: the file holds no single history; full run repeated with the same seed')
         return run(ctx)
